@@ -419,6 +419,13 @@ func checkC13R(cc any) *ev.Verdict {
 		}
 		w := gen.Var("w")
 		s2.Script.Stmts = append(s2.Script.Stmts, &gen.Stmt{Kind: gen.StCall, Call: &gen.Call{Fn: "set_account_meta", Args: []*gen.Expr{gen.Acct("holder2"), gen.Str("k2"), w}}})
+		if via != "plain" {
+			// the value written back where it was read from, after another value was written
+			// there: the last write counts, and it writes the text that was read
+			s2.Script.Stmts = append(s2.Script.Stmts,
+				&gen.Stmt{Kind: gen.StCall, Call: &gen.Call{Fn: "set_account_meta", Args: []*gen.Expr{gen.Acct("holder"), gen.Str("k"), gen.Str("something else")}}},
+				&gen.Stmt{Kind: gen.StCall, Call: &gen.Call{Fn: "set_account_meta", Args: []*gen.Expr{gen.Acct("holder"), gen.Str("k"), w}}})
+		}
 		// operational use
 		world := &gen.Src{Kind: gen.SAcct, Addr: gen.Acct("world")}
 		toD := &gen.Dst{Kind: gen.DAcct, Addr: gen.Acct("d")}
@@ -459,6 +466,11 @@ func checkC13R(cc any) *ev.Verdict {
 			return v.Failf("read", "the text %q, stored for the %s value %q, is not accepted when read back through a %s variable: %s", text1, c.Type, c.Text, via, r2.Summary())
 		}
 		text2 := r2.AcctMeta["holder2"]["k2"]
+		if via != "plain" {
+			if back := r2.AcctMeta["holder"]["k"]; back != text1 {
+				return v.Failf("written-back", "%s value read from holder.k (%q), overwritten there and then written back: the entry ends as %q", c.Type, text1, back)
+			}
+		}
 		if text2 != text1 {
 			return v.Failf("fixed-point", "%s value %q stored as %q; read back (%s) and stored again it becomes %q", c.Type, c.Text, text1, via, text2)
 		}
